@@ -61,7 +61,7 @@ func runC05(c *Ctx) {
 	ruleServeFromHead(c, "R5.7")
 	ruleNoWaitOnCancelledContext(c, "R5.6")
 	ruleSyncTriesAllPeers(c, "R5.9")
-	ruleAppendStorePut(c, "R5.10") // a failed write leaves the head where it was: the round can still be appended later
+	ruleAppendStorePut(c, "R5.10")   // a failed write leaves the head where it was: the round can still be appended later
 	ruleSignedRound(c, "R5.8", sign) // after a halt the partial signed is head+1, the only round that can be appended
 }
 
